@@ -1,5 +1,9 @@
 import WfProofs.SerialLemmas
 import WfProofs.EngineIds
+import WfProofs.SerialParked
+import WfProofs.SerialOffCfg
+import WfProofs.SerialCtx
+import WfModel.GenSerialShape
 /-!
 # C12 — pausing to a serialised context and resuming
 
@@ -19,6 +23,26 @@ the `serde` correspondence (two consecutive round trips on generated states).
 * **work that only exists as a timer** (a retry waiting out its delay) is not part of the
   serialised context at all (`C12_refuted_scheduled_retry`, known finding) — `C12_same_result` is
   therefore checked on the implementation for snapshot points with no pending retry timer.
+
+Over whole resumed runs and over payloads (second half of this file):
+
+* **the resumed run** (`Runner.init` on the round trip, every state, every clock, with or without a workflow
+  timeout): per step, the first `min(num_workers, #pending)` of `queued ++ in-progress` are started — each with a
+  running worker —, the rest stays queued in order, no slot stays free (`C12_resumed_run_restarts_pending`); the
+  records they are started with are those of the queued invocations followed by *fresh* records for the ones that
+  were in progress (`C12_resumed_run_retry_records`: the clause at run level; exactly what F11 loses);
+* **pausing where nothing is in flight** (a run waiting for external input): for every later schedule, including
+  events sent from outside, the run resumed from JSON and the uninterrupted run have the same state, outcome,
+  workers, buffer, mailbox and timers, and publish / log the same things from the pause on
+  (`C12_parked_resume_same_future`);
+* **any number of round trips** equals one (`C12_roundtrip_iterate`); **every payload** `from_dict_auto` accepts —
+  defaults, legacy `requirements`, legacy V0 format, wrong version — loads into a state that a further round trip
+  does not change (`C12_payload_stable`); what `to_dict` writes is read back as the current format
+  (`C12_todict_read_back`); what a V0 payload and a payload with a foreign version are resumed as
+  (`C12_v0_resumed_step`, `C12_foreign_version_reads_nothing`);
+* **source shape**: which fields `to_serialized` writes / `from_serialized` reads for queue entries, in-progress
+  entries and waiters, the version marker on both sides, `from_v0`, `PreContext.__init__`, `from_dict`, `to_dict`
+  are regenerated from the sources (`GenSerialShape`) and pinned next to the model equations (`C12_source_shape`).
 -/
 set_option linter.unusedVariables false
 open Engine
@@ -161,3 +185,380 @@ example : (roundtrip C12.cfg
                        attempts := 1, firstAt := 5 }] } }).workers 0 =
     { queue := [{ ev := { ty := 0, kind := .start, uid := 3 }, attempts := some 2, rc := [(9, 1)] },
                 { ev := { ty := 0, kind := .start, uid := 4 }, attempts := some 0 }] } := by decide
+
+
+/-! # whole resumed runs -/
+
+/-- **every not-yet-completed invocation is restarted or queued again, in order, within the limits**: in the
+runner resumed from the serialised context, each step has started the first `min(num_workers, #pending)` of
+`queued ++ in-progress` with a running worker each, keeps the rest queued in order, and has its buffers and
+waiters back -/
+theorem C12_resumed_run_restarts_pending (cfg : Cfg) (hwf : cfg.WF) (st : State) (now : Int) (timeout : Option Nat)
+    (c : StepCfg) (hc : c ∈ cfg.steps) :
+    let R := Runner.init cfg (roundtrip cfg st) now none timeout
+    let rs := R.st.workers c.name
+    let pending := resumedPending (st.workers c.name)
+    let k := min c.numWorkers pending.length
+    rs.inProg.map (·.ev) = (pending.take k).map (·.ev) ∧
+    rs.queue = pending.drop k ∧
+    rs.inProg.length = k ∧
+    rs.collected = (st.workers c.name).collected ∧
+    rs.waiters = (st.workers c.name).waiters.map (fun w => deserWaiter (serWaiter w)) ∧
+    (∀ ip ∈ rs.inProg, ({ step := c.name, wid := ip.wid, ev := ip.ev } : Worker) ∈ R.running) ∧
+    R.outcome = none := by
+  intro R rs pending k
+  obtain ⟨h1, h2, h3, h4, h5, h6, h7⟩ := resumed_step cfg hwf st now timeout c hc
+  refine ⟨?_, h2, h3, h4, h5, h6, h7⟩
+  have := congrArg (List.map Started.ev) h1
+  simpa [List.map_map, Function.comp_def, InProg.started, Attempt.startedAt] using this
+
+/-- the record a restarted in-progress invocation gets: first attempt, clock of the resume, no exception, no
+recovery spent -/
+def C12.freshStart (now : Int) (e : Ev) : Started :=
+  { ev := e, attempts := 0, firstAt := now, lastExc := none, lastFailedAt := none, rc := [] }
+
+/-- **the retry count and recovery budget every pending invocation is re-executed under**: what the resumed run
+starts its invocations with (`ctx.retry_info()`, recovery counts), followed by what the still queued ones will be
+started with, is: the queued invocations' own records, then fresh records for the ones that were in progress -/
+theorem C12_resumed_run_retry_records (cfg : Cfg) (hwf : cfg.WF) (st : State) (now : Int) (timeout : Option Nat)
+    (c : StepCfg) (hc : c ∈ cfg.steps) :
+    let rs := (Runner.init cfg (roundtrip cfg st) now none timeout).st.workers c.name
+    rs.inProg.map InProg.started ++ rs.queue.map (Attempt.startedAt now)
+      = (st.workers c.name).queue.map (Attempt.startedAt now)
+        ++ (st.workers c.name).inProg.map (fun ip => C12.freshStart now ip.ev) := by
+  intro rs
+  obtain ⟨h1, h2, _⟩ := resumed_step cfg hwf st now timeout c hc
+  show rs.inProg.map InProg.started ++ rs.queue.map (Attempt.startedAt now) = _
+  rw [h1, h2, ← List.map_append, List.take_append_drop]
+  simp only [resumedPending, List.map_append, List.map_map]
+  congr 1
+  apply List.map_congr_left
+  intro a _
+  simp [Function.comp, Attempt.startedAt, serAttempt, orNat_orNat]
+
+/-- non-vacuity: one worker; an invocation on its third attempt in progress, one queued on its second attempt
+with a recovery spent: the resumed run starts the queued one as attempt 1 (0-based) with its counts and keeps
+the formerly running one queued as a fresh entry -/
+example :
+    let st : State := { isRunning := true, workers := fun n => if n = 0 then
+        { queue := [{ ev := { ty := 0, kind := .start, uid := 3 }, attempts := some 1, firstAt := some 2, rc := [(9, 1)] }],
+          inProg := [{ ev := { ty := 0, kind := .start, uid := 4 }, wid := 0, snapEvents := [], snapWaiters := [],
+                       attempts := 2, firstAt := 1 }] } else {} }
+    let R := Runner.init C12.cfg (roundtrip C12.cfg st) 7 none none
+    (R.st.workers 0).inProg.map InProg.started =
+      [{ ev := { ty := 0, kind := .start, uid := 3 }, attempts := 1, firstAt := 2, lastExc := none, lastFailedAt := none, rc := [(9, 1)] }] ∧
+    (R.st.workers 0).queue = [{ ev := { ty := 0, kind := .start, uid := 4 }, attempts := some 0 }] ∧
+    R.running = [{ step := 0, wid := 0, ev := { ty := 0, kind := .start, uid := 3 } }] := by decide
+
+example : C12.cfg.WF := by simp [Cfg.WF, Cfg.names, C12.cfg]
+
+/-! # pausing where nothing is in flight -/
+
+/-- **a run paused while it waits for external input resumes into the same future**: for a parked runner (no
+buffered tick, empty mailbox, no timer, no worker, nothing queued or in progress, waiters without requirements)
+and every later schedule — worker results, external events, time — the run resumed from the serialised context
+and the uninterrupted run agree on state, outcome, running workers, buffer, mailbox, clock and timers, and from
+the pause on they publish and log the same -/
+theorem C12_parked_resume_same_future (cfg : Cfg) (pol : Policy) (r : Runner) (h : Parked cfg r) (acts : List Act) :
+    let live := Runner.run cfg pol r acts
+    let resumed := Runner.run cfg pol (Runner.init cfg (roundtrip cfg r.st) r.now none none) acts
+    live.st = resumed.st ∧ live.outcome = resumed.outcome ∧ live.running = resumed.running ∧
+    live.buf = resumed.buf ∧ live.mailbox = resumed.mailbox ∧ live.now = resumed.now ∧
+    live.idlePending = resumed.idlePending ∧
+    live.heap = resumed.heap.map (Timer.shift r.seq) ∧
+    live.stream = r.stream ++ resumed.stream ∧ live.log = r.log ++ resumed.log := by
+  intro live resumed
+  have e : live = resumed.lift r.seq r.stream r.log := by
+    show Runner.run cfg pol r acts = _
+    have h0 := parked_eq_lift cfg r h
+    calc Runner.run cfg pol r acts
+        = Runner.run cfg pol ((Runner.init cfg (roundtrip cfg r.st) r.now none none).lift r.seq r.stream r.log) acts :=
+          congrArg (fun x => Runner.run cfg pol x acts) h0
+      _ = _ := run_lift cfg pol r.seq r.stream r.log acts _
+  rw [e]
+  exact ⟨rfl, rfl, rfl, rfl, rfl, rfl, rfl, rfl, rfl, rfl⟩
+
+def C12.waitCfg : Cfg := { steps := [{ name := 0, accepted := [0], numWorkers := 1, hasRetry := false }] }
+def C12.askEv : Ev := { ty := 2, kind := .inputRequired, uid := 5 }
+/-- a run that started, whose step asked a question (`wait_for_event` without requirements) and suspended -/
+def C12.waitRun : Runner :=
+  Runner.run C12.waitCfg C12.pol (Runner.init C12.waitCfg initState 0 (some { ty := 0, kind := .start, uid := 1 }) none)
+    [.drain, .workerDone 0 0 [.addWaiter 7 (some C12.askEv) none none 3], .drain, .drain]
+
+/-- non-vacuity: the waiting run is parked on the step it has (its waiter is there, the question was published,
+three ticks were logged) ... -/
+example :
+    C12.waitRun.buf = [] ∧ C12.waitRun.mailbox = [] ∧ C12.waitRun.heap = [] ∧ C12.waitRun.running = [] ∧
+    C12.waitRun.idlePending = false ∧ C12.waitRun.outcome = none ∧ C12.waitRun.st.isRunning = true ∧
+    (C12.waitRun.st.workers 0).queue = [] ∧ (C12.waitRun.st.workers 0).inProg = [] ∧
+    (C12.waitRun.st.workers 0).waiters.map (fun w => (w.wid, w.req, w.hasReq, w.waitTy)) = [(7, none, false, 3)] ∧
+    Pub.event C12.askEv ∈ C12.waitRun.stream ∧ Pub.idle ∈ C12.waitRun.stream ∧ C12.waitRun.log.length = 3 := by decide
+
+/-- ... and a runner of that shape satisfies `Parked`; the reply then completes both runs alike -/
+example :
+    let w : Waiter := { wid := 7, ev := { ty := 0, kind := .start, uid := 1 }, waitTy := 3, req := none, hasReq := false,
+                        firstAt := some 0 }
+    let r : Runner := { st := { isRunning := true, workers := fun n => if n = 0 then { waiters := [w] } else {} },
+                        stream := [.event C12.askEv, .idle], seq := 2, now := 4 }
+    Parked C12.waitCfg r := by
+  intro w r
+  refine ⟨rfl, rfl, rfl, rfl, rfl, rfl, ?_, ?_, ?_⟩
+  · intro n hn
+    have : n ≠ 0 := by
+      intro e; subst e; revert hn; decide
+    simp [r, this]
+  · intro n _
+    by_cases h0 : n = 0 <;> simp [r, h0]
+  · intro n x hx
+    by_cases h0 : n = 0
+    · simp [r, h0] at hx
+      subst hx
+      exact ⟨rfl, rfl⟩
+    · simp [r, h0] at hx
+
+/-- what can be observed of a run that waits for external input with nothing in flight -/
+structure C12.WaitingForInput (cfg : Cfg) (r : Runner) : Prop where
+  buf : r.buf = []
+  mailbox : r.mailbox = []
+  heap : r.heap = []
+  running : r.running = []
+  idle : r.idlePending = false
+  outcome : r.outcome = none
+  steps : ∀ c ∈ cfg.steps, (r.st.workers c.name).queue = [] ∧ (r.st.workers c.name).inProg = [] ∧
+    ∀ w ∈ (r.st.workers c.name).waiters, w.req = none ∧ w.hasReq = false
+
+/-- **every pause point of every run at which the run only waits for input**: take any run — fresh, or itself
+resumed from a loaded context — under any schedule `before`; if it then waits for input with nothing in flight,
+serialise it there; under every schedule `after` the run resumed from the serialised context and the run that
+was never interrupted agree on state, outcome, workers, buffer, mailbox, clock and timers, and publish / log the
+same from the pause on.  (No name outside the workflow's steps ever gets state: `run_offCfg`.) -/
+theorem C12_pause_while_waiting_same_future (cfg : Cfg) (pol : Policy) (st0 : State) (h0 : OffCfg cfg st0) (now0 : Int)
+    (start : Option Ev) (timeout : Option Nat) (before after : List Act) :
+    let r := Runner.run cfg pol (Runner.init cfg st0 now0 start timeout) before
+    C12.WaitingForInput cfg r →
+    let live := Runner.run cfg pol r after
+    let resumed := Runner.run cfg pol (Runner.init cfg (roundtrip cfg r.st) r.now none none) after
+    live.st = resumed.st ∧ live.outcome = resumed.outcome ∧ live.running = resumed.running ∧
+    live.buf = resumed.buf ∧ live.mailbox = resumed.mailbox ∧ live.now = resumed.now ∧
+    live.idlePending = resumed.idlePending ∧
+    live.heap = resumed.heap.map (Timer.shift r.seq) ∧
+    live.stream = r.stream ++ resumed.stream ∧ live.log = r.log ++ resumed.log := by
+  intro r hw
+  have hoff : OffCfg cfg r.st := run_offCfg cfg pol before _ (init_offCfg cfg st0 now0 start timeout h0)
+  have hp : Parked cfg r := by
+    refine ⟨hw.buf, hw.mailbox, hw.heap, hw.running, hw.idle, hw.outcome, hoff, ?_, ?_⟩
+    · intro n hn
+      obtain ⟨c, hc, rfl⟩ := List.mem_map.mp ((hasStep_iff_mem cfg n).mp hn)
+      exact ⟨(hw.steps c hc).1, (hw.steps c hc).2.1⟩
+    · intro n w hwm
+      by_cases hn : cfg.hasStep n = true
+      · obtain ⟨c, hc, rfl⟩ := List.mem_map.mp ((hasStep_iff_mem cfg n).mp hn)
+        exact (hw.steps c hc).2.2 w hwm
+      · have hn' : cfg.hasStep n = false := by simpa using hn
+        rw [hoff n hn'] at hwm
+        simp at hwm
+  exact C12_parked_resume_same_future cfg pol r hp after
+
+/-- non-vacuity: the run that asked its question (`C12.waitRun`, a fresh run) waits for input in this sense, and the
+empty start state has no state outside the steps -/
+example : C12.WaitingForInput C12.waitCfg
+    (Runner.run C12.waitCfg C12.pol (Runner.init C12.waitCfg initState 0 (some { ty := 0, kind := .start, uid := 1 }) none)
+      [.drain, .workerDone 0 0 [.addWaiter 7 (some C12.askEv) none none 3], .drain, .drain]) :=
+  ⟨by decide, by decide, by decide, by decide, by decide, by decide, by decide⟩
+
+example (cfg : Cfg) : OffCfg cfg initState := offCfg_init cfg
+example (cfg : Cfg) (st : State) : OffCfg cfg (roundtrip cfg st) := offCfg_roundtrip cfg st
+
+/-! # round trips and payloads -/
+
+/-- **any number of consecutive round trips equals one** -/
+theorem C12_roundtrip_iterate (cfg : Cfg) (k : Nat) (st : State) :
+    Nat.repeat (roundtrip cfg) (k + 1) st = roundtrip cfg st := by
+  induction k generalizing st with
+  | zero => rfl
+  | succ k ih =>
+    show roundtrip cfg (Nat.repeat (roundtrip cfg) (k + 1) st) = roundtrip cfg st
+    rw [ih, C12_roundtrip_stable]
+
+/-- **the serialised form is stable for every payload**: whatever dict `Context.from_dict` accepts (current format
+with omitted fields and legacy `requirements`, legacy V0 format, any version marker), the state it is loaded into
+is not changed by serialising and loading it again -/
+theorem C12_payload_stable (cfg : Cfg) (p : Payload) :
+    roundtrip cfg (resumeState cfg p) = resumeState cfg p := resume_stable cfg p
+
+/-- **`to_dict` output is read back as written**: the version marker `to_serialized` writes selects the current
+format, and loading the payload is exactly the model's round trip -/
+theorem C12_todict_read_back (cfg : Cfg) (st : State) :
+    isCurrentVersion (some GenSerialShape.writtenVersion) = true ∧
+    fromDictAuto (toDict cfg st) = ser cfg st ∧
+    resumeState cfg (toDict cfg st) = roundtrip cfg st :=
+  ⟨by decide, fromDictAuto_toDict cfg st, resume_toDict cfg st⟩
+
+/-- a legacy (V0) payload, per step the workflow knows: a step named among the queues / in-flight lists / buffers
+and not among the waiter ids gets every in-flight event and then every queued event as a fresh queue entry,
+nothing in progress, no waiters, and one buffer `default` holding all buffered events; every other step is empty -/
+theorem C12_v0_resumed_step (cfg : Cfg) (ver : Option Int) (hver : isCurrentVersion ver = false) (v : SerV0) (n : Nat)
+    (hs : cfg.hasStep n = true) :
+    let rs := (resumeState cfg (.legacy ver v)).workers n
+    (n ∈ v0Names v ∧ n ∉ v.waitingIds →
+      rs.queue = (v0Pending v n).map v0Attempt ∧ rs.inProg = [] ∧ rs.waiters = [] ∧
+      rs.collected = if (v0Buffered v n).isEmpty then [] else [(0, v0Buffered v n)]) ∧
+    (¬ (n ∈ v0Names v ∧ n ∉ v.waitingIds) → rs = {}) := by
+  intro rs
+  have h := resume_v0 cfg ver hver v n hs
+  constructor
+  · intro hn
+    have : rs = deserStep (v0Step v n) := by
+      show (resumeState cfg (.legacy ver v)).workers n = _
+      rw [h, if_pos hn]
+    rw [this]
+    simp [deserStep, v0Step]
+  · intro hn
+    show (resumeState cfg (.legacy ver v)).workers n = _
+    rw [h, if_neg hn]
+
+/-- a current-format payload whose version marker is not the current one is read as the legacy format, which
+knows none of its keys: no step has any work, buffer or waiter left (only the running flag survives) -/
+theorem C12_foreign_version_reads_nothing (cfg : Cfg) (ver : Option Int) (hver : isCurrentVersion ver = false)
+    (run : Bool) (ws : List (Nat × PStep)) (n : Nat) :
+    (resumeState cfg (.current ver run ws)).workers n = {} ∧
+    (resumeState cfg (.current ver run ws)).isRunning = run := by
+  simp [resumeState, fromDictAuto, hver, deser, fromV0, v0Names]
+
+def C12.v0 : SerV0 :=
+  { isRunning := true,
+    queues := [(0, [{ ty := 0, kind := .start, uid := 2 }]), (77, [{ ty := 3, kind := .plain, uid := 9 }])],
+    inProgress := [(0, [{ ty := 0, kind := .start, uid := 1 }])],
+    eventBuffers := [(0, [(5, [{ ty := 5, kind := .plain, uid := 6 }]), (6, [{ ty := 6, kind := .plain, uid := 7 }])])],
+    waitingIds := [77] }
+
+/-- non-vacuity: a V0 payload with an in-flight and a queued event, two per-type buffers and a waiter queue -/
+example :
+    (resumeState C12.cfg (.legacy none C12.v0)).workers 0 =
+      { queue := [{ ev := { ty := 0, kind := .start, uid := 1 }, attempts := some 0 },
+                  { ev := { ty := 0, kind := .start, uid := 2 }, attempts := some 0 }],
+        collected := [(0, [{ ty := 5, kind := .plain, uid := 6 }, { ty := 6, kind := .plain, uid := 7 }])] } ∧
+    0 ∈ v0Names C12.v0 ∧ 0 ∉ C12.v0.waitingIds ∧ isCurrentVersion none = false ∧ isCurrentVersion (some 2) = false := by
+  decide
+
+/-- non-vacuity: a current-format payload with omitted fields, a legacy `requirements` object and an in-progress
+entry -/
+example :
+    (resumeState C12.cfg (.current (some 1) true
+        [(0, { queue := [{ ev := { ty := 0, kind := .start, uid := 3 } }],
+               inProg := [{ ty := 0, kind := .start, uid := 4 }],
+               waiters := [{ w := { wid := 1, ev := { ty := 0, kind := .start, uid := 3 }, waitTy := 5, hasReq := false,
+                                    resolved := none, timedOut := false, attempts := 2, firstAt := none, lastExc := none,
+                                    lastFailedAt := none, rc := [] }, legacyReq := true }] })])).workers 0 =
+      { queue := [{ ev := { ty := 0, kind := .start, uid := 3 }, attempts := some 0 },
+                  { ev := { ty := 0, kind := .start, uid := 4 }, attempts := some 0 }],
+        waiters := [{ wid := 1, ev := { ty := 0, kind := .start, uid := 3 }, waitTy := 5, req := none, hasReq := true,
+                      attempts := 2 }] } := by decide
+
+/-! # the sources the model was written against -/
+
+/-- `to_serialized` / `from_serialized` / `from_dict_auto` / `from_v0` / `PreContext.__init__` / `from_dict` /
+`to_dict` as they are in the tree (regenerated on every run into `WfModel/GenSerialShape.lean`), next to the model
+equations they justify -/
+theorem C12_source_shape :
+    -- queue entries: every field of `EventAttempt` is written and read back; `attempts or 0`
+    -- (in the generated strings the locals of each function are called v0, v1, ... in order of occurrence)
+    GenSerialShape.eventAttemptFields = ["event", "attempts", "first_attempt_at", "last_exception", "last_failed_at",
+      "recovery_counts"] ∧
+    GenSerialShape.queueWrittenNames = GenSerialShape.eventAttemptFields ∧
+    GenSerialShape.queueReadNames = GenSerialShape.eventAttemptFields ∧
+    GenSerialShape.queueWritten = ["event=v0.serialize(v1.event)", "attempts=v1.attempts or 0",
+      "first_attempt_at=v1.first_attempt_at", "last_exception=v1.last_exception",
+      "last_failed_at=v1.last_failed_at", "recovery_counts=dict(v1.recovery_counts)"] ∧
+    GenSerialShape.queueRead = ["event=v0.deserialize(v1.event)", "attempts=v1.attempts",
+      "first_attempt_at=v1.first_attempt_at", "last_exception=v1.last_exception",
+      "last_failed_at=v1.last_failed_at", "recovery_counts=dict(v1.recovery_counts)"] ∧
+    (∀ a : Attempt, serAttempt a = { a with attempts := some (orNat a.attempts 0) }) ∧
+    -- in-progress invocations: only the event is written; they come back appended to the queue as fresh entries
+    GenSerialShape.inProgressWritten = "v0.serialize(x.event)" ∧
+    GenSerialShape.inProgressWrittenOver = "v0.in_progress" ∧
+    GenSerialShape.inProgressFields = ["event", "worker_id", "shared_state", "attempts", "first_attempt_at",
+      "last_exception", "last_failed_at", "recovery_counts"] ∧
+    GenSerialShape.inProgressDropped = ["worker_id", "shared_state", "attempts", "first_attempt_at", "last_exception",
+      "last_failed_at", "recovery_counts"] ∧
+    GenSerialShape.requeued = ["event=v0.deserialize(v1)", "attempts=0", "first_attempt_at=None"] ∧
+    GenSerialShape.requeuedVia = "v1.queue.append" ∧
+    GenSerialShape.requeuedOver = "v0.in_progress" ∧
+    (∀ ss : StepState, (serStep ss).inProg = ss.inProg.map (·.ev)) ∧
+    (∀ s : SerStep, (deserStep s).queue = s.queue ++ s.inProg.map freshAttempt ∧ (deserStep s).inProg = []) ∧
+    -- waiters: everything but `requirements` is written; all fields are given back, `requirements` empty
+    GenSerialShape.waiterFields = ["waiter_id", "event", "waiting_for_event", "requirements", "has_requirements",
+      "resolved_event", "timed_out", "attempts", "first_attempt_at", "last_exception", "last_failed_at",
+      "recovery_counts"] ∧
+    GenSerialShape.waiterNotWritten = ["requirements"] ∧
+    GenSerialShape.waiterReadNames = GenSerialShape.waiterFields ∧
+    GenSerialShape.waiterWritten = ["waiter_id=v0.waiter_id", "event=v1.serialize(v0.event)",
+      "waiting_for_event=f'{v0.waiting_for_event.__module__}.{v0.waiting_for_event.__name__}'",
+      "has_requirements=bool(len(v0.requirements)) or v0.has_requirements",
+      "resolved_event=v1.serialize(v0.resolved_event) if v0.resolved_event else None",
+      "timed_out=v0.timed_out", "attempts=v0.attempts", "first_attempt_at=v0.first_attempt_at",
+      "last_exception=v0.last_exception", "last_failed_at=v0.last_failed_at",
+      "recovery_counts=dict(v0.recovery_counts)"] ∧
+    GenSerialShape.waiterRead = ["waiter_id=v0.waiter_id", "event=v1.deserialize(v0.event)",
+      "waiting_for_event=v2", "requirements={}", "has_requirements=v0.has_requirements",
+      "resolved_event=v1.deserialize(v0.resolved_event) if v0.resolved_event else None",
+      "timed_out=v0.timed_out", "attempts=v0.attempts", "first_attempt_at=v0.first_attempt_at",
+      "last_exception=v0.last_exception", "last_failed_at=v0.last_failed_at",
+      "recovery_counts=dict(v0.recovery_counts)"] ∧
+    (∀ w : Waiter, (serWaiter w).hasReq = (w.req.isSome || w.hasReq)) ∧
+    (∀ w : SerWaiter, (deserWaiter w).req = none ∧ (deserWaiter w).hasReq = w.hasReq) ∧
+    -- the per-step record, the context record, which steps are written and which are restored
+    GenSerialShape.stepWrittenNames = ["queue", "in_progress", "collected_events", "collected_waiters"] ∧
+    GenSerialShape.contextWritten = ["version=1", "state={}", "is_running=self.is_running", "workers=v0"] ∧
+    GenSerialShape.stepsWrittenOver = "self.workers.items()" ∧
+    GenSerialShape.unknownStepSkipped = "v0 not in v1.workers" ∧
+    GenSerialShape.runningRestored = "v0.is_running = v1.is_running" ∧
+    GenSerialShape.workerAssigned = ["v0.collected_events", "v0.collected_waiters", "v0.queue"] ∧
+    -- defaults of the serialised models
+    GenSerialShape.serializedAttemptFields = ["event", "attempts=0", "first_attempt_at=None", "last_exception=None",
+      "last_failed_at=None", "recovery_counts=Field(default_factory=dict)"] ∧
+    GenSerialShape.serializedWaiterFields = ["waiter_id", "event", "waiting_for_event",
+      "has_requirements=Field(default=False)", "resolved_event=None", "timed_out=Field(default=False)", "attempts=0",
+      "first_attempt_at=None", "last_exception=None", "last_failed_at=None", "recovery_counts=Field(default_factory=dict)"] ∧
+    GenSerialShape.serializedStepFields = ["queue=Field(default_factory=list)", "in_progress=Field(default_factory=list)",
+      "collected_events=Field(default_factory=dict)", "collected_waiters=Field(default_factory=list)"] ∧
+    GenSerialShape.serializedContextFields = ["version=Field(default=1)", "state=Field(default_factory=dict)",
+      "is_running=Field(default=False)", "workers=Field(default_factory=dict)"] ∧
+    (({ ev := C12.askEv } : PAttempt).validate = { ev := C12.askEv, attempts := some 0 }) ∧
+    (({} : PStep).validate = { queue := [], inProg := [], collected := [], waiters := [] }) ∧
+    -- the version marker: written = default = the one `from_dict_auto` accepts
+    GenSerialShape.writtenVersion = 1 ∧ GenSerialShape.defaultVersion = 1 ∧ GenSerialShape.dispatchVersion = 1 ∧
+    GenSerialShape.dispatchTest = "'version' in v0 and v0['version'] == 1" ∧
+    GenSerialShape.dispatchSkeleton = ["if 'version' in v0 and v0['version'] == 1",
+      "return SerializedContext.model_validate(v0)", "else", "v1 = SerializedContextV0.model_validate(v0)",
+      "return SerializedContext.from_v0(v1)", "endif"] ∧
+    (∀ v : Option Int, isCurrentVersion v = (v == some GenSerialShape.dispatchVersion)) ∧
+    GenSerialShape.legacyRequirements = ["if 'requirements' in v0 and isinstance(v0['requirements'], dict) and (len(v0['requirements']) > 0)",
+      "v0['has_requirements'] = True", "endif", "return v0"] ∧
+    (∀ p : PWaiter, p.validate.hasReq = (p.legacyReq || p.w.hasReq)) ∧
+    -- `from_v0`
+    GenSerialShape.fromV0Facts = ["names:set(v0.queues.keys()) | set(v0.in_progress.keys()) | set(v0.event_buffers.keys())",
+      "skip:v0 in v1.waiting_ids",
+      "queue-from:v0 in v1.in_progress -> event=v3,attempts=0,first_attempt_at=None via v2.append",
+      "queue-from:v0 in v1.queues -> event=v3,attempts=0,first_attempt_at=None via v2.append",
+      "buffers-from:v0 in v1.event_buffers over v1.event_buffers[v0].values() if v2 key 'default'",
+      "step:queue=<local>,in_progress=[],collected_events=<local>,collected_waiters=[]",
+      "context:version=1,state=v0.state,is_running=v0.is_running,workers=v1"] ∧
+    (∀ v n, (v0Step v n).queue = ((assocGet v.inProgress n).getD [] ++ (assocGet v.queues n).getD []).map v0Attempt) ∧
+    -- `PreContext.__init__`, `Context._workflow_run`, `Context.from_dict`, `ExternalContext.to_dict`
+    GenSerialShape.preContextParse = ["try", "v0 = SerializedContext.from_dict_auto(v1)",
+      "BrokerState.from_serialized(v0, v2, self._serializer)", "except ValidationError",
+      "raise ContextSerdeError(f'Context dict specified in an invalid format: {v3}') from v3", "endtry"] ∧
+    GenSerialShape.runInitialState = "BrokerState.from_serialized(v0.init_snapshot, v1, v0._serializer)" ∧
+    GenSerialShape.fromDictBody = ["try", "return cls(v0, previous_context=v1, serializer=v2)",
+      "except KeyError", "v3 = 'Error creating a Context instance: the provided payload has a wrong or old format.'",
+      "raise ContextSerdeError(v3) from v4", "endtry"] ∧
+    GenSerialShape.toDictSerialized = ["v0 = v1.to_serialized(v2)", "v0.state = v3",
+      "return v0.model_dump(mode='python')"] ∧
+    (∀ cfg p, resumeState cfg p = deser cfg (fromDictAuto p)) := by
+  refine ⟨rfl, rfl, rfl, rfl, rfl, fun _ => rfl, rfl, rfl, rfl, rfl, rfl, rfl, rfl, fun _ => rfl, fun _ => ⟨rfl, rfl⟩,
+    rfl, rfl, rfl, rfl, rfl, fun _ => rfl, fun _ => ⟨rfl, rfl⟩, rfl, rfl, rfl, rfl, rfl, rfl, rfl, rfl, rfl, rfl, rfl, rfl,
+    rfl, rfl, rfl, rfl, rfl, fun _ => rfl, rfl, ?_, rfl, fun _ _ => rfl, rfl, rfl, rfl, rfl, fun _ _ => rfl⟩
+  intro p
+  cases p with
+  | mk w l => cases l <;> simp [PWaiter.validate]
